@@ -204,50 +204,70 @@ def r4_accepts(cx):
                         arms = vs if arms is None else (arms & vs)
         return arms
 
-    n = 0
-    for c in f.calls():
-        if not re.search(r"Option::<.*>::ok_or(_else)?$", c.q):
-            continue
-        arms = arm_of(c.b)
-        if arms is None or not (arms & RETURN_EVENTS):
-            continue
-        n += 1
-        r = pa.root(f, c.args[0])
-        ok = r[0] == "call" and bool(ABSENCE_ONLY.search(r[1])) and not r[3]
-        what = short_name(r[1]) if r[0] == "call" else root_str(r)
-        key = None
-        if ok and "get_var" in r[1]:
-            k = pv.root(f, Call(f, r[2]).args[1])
-            key = (k[1].get("named") or k[1].get("str") or "?").split("::")[-1] if k[0] == "const" else "?"
-            if "Error" in arms:
-                ok = key == "ACT_ERR_CODE"
-        armn = "/".join(sorted(arms))
-        if ok:
-            desc = "in the %s arm Task::update fails when `%s`%s is absent - and only then: the option is taken as it comes, no filter or test of its value stands between the lookup and the refusal" % (armn, what, "(%s)" % key if key else "")
-        else:
-            desc = ("in the %s arm Task::update refuses on the result of `%s`%s, not on the plain absence of an option / parent: the return of a child is refused for its content "
-                    "(a child that ends with an engine-raised error returns an empty code) and the calling act stays open" % (armn, what, "(%s)" % key if key else ""))
-        cx.ob("C15.R4", "update:%s:requires:%s%s" % (armn, what.split("::<")[0], "(%s)" % key if key else ""), ok, desc, c.loc)
-    for b, kind in f.exit_defs():
-        if kind != "ERR_NEW":
-            continue
-        arms = arm_of(b)
-        if arms is None or not (arms & RETURN_EVENTS):
-            continue
-        n += 1
-        extra = []
-        for g in guards_of(m, f, b, mode="alias"):
-            if g.neutral:
+    from vlib.ts import Summaries
+    sm = cx.shared("summaries", lambda: Summaries(m))
+    seen_arms = set()
+    for b in range(len(f.blocks)):
+        a = arm_of(b)
+        if a and a <= RETURN_EVENTS:
+            seen_arms |= a
+    for e in sorted(RETURN_EVENTS):
+        if e not in seen_arms:
+            cx.undecide("C15.R4", "the %s arm of Task::update was not recognised" % e)
+
+    def scan(g, arms_of, via, depth):
+        """refusals raised in g (restricted to the blocks of the return arms when g is Task::update)"""
+        for c in g.calls():
+            arms = arms_of(c.b)
+            if arms is None or not (arms & RETURN_EVENTS):
                 continue
-            r = g.root
-            if r[0] == "discr":
+            armn = "/".join(sorted(arms))
+            if re.search(r"Option::<.*>::ok_or(_else)?$", c.q):
+                r = pa.root(g, c.args[0])
+                ok = r[0] == "call" and bool(ABSENCE_ONLY.search(r[1])) and not r[3]
+                what = short_name(r[1]) if r[0] == "call" else root_str(r)
+                key = None
+                if ok and "get_var" in r[1]:
+                    k = pv.root(g, Call(g, r[2]).args[1])
+                    key = (k[1].get("named") or k[1].get("str") or "?").split("::")[-1] if k[0] == "const" else "?"
+                    if "Error" in arms:
+                        ok = key == "ACT_ERR_CODE"
+                if ok:
+                    desc = "in the %s arm Task::update fails when `%s`%s is absent - and only then: the option is taken as it comes, no filter or test of its value stands between the lookup and the refusal" % (armn, what, "(%s)" % key if key else "")
+                else:
+                    desc = ("in the %s arm Task::update refuses on the result of `%s`%s, not on the plain absence of an option / parent: the return of a child is refused for its content "
+                            "(a child that ends with an engine-raised error returns an empty code) and the calling act stays open" % (armn, what, "(%s)" % key if key else ""))
+                cx.ob("C15.R4", "update:%s:requires:%s%s%s" % (armn, what.split("::<")[0], "(%s)" % key if key else "", via), ok, desc, c.loc)
+            elif c.q in m.fns and c.q != g.q and depth < 3 and c.q not in sm.may_write and m.fns[c.q].returns_result() and c.q in sm.may_fail():
+                # an admission helper (cannot change a task, can refuse): its refusals are the arm's refusals
+                h = m.fns[c.q]
+                scan(h, lambda b_, arms=arms: arms, "%s@%s" % (via, h.short), depth + 1)
+        for b, kind in g.exit_defs():
+            if kind != "ERR_NEW":
                 continue
-            if r[0] == "call" and T.STATE_PRED.match(r[1]):
+            arms = arms_of(b)
+            if arms is None or not (arms & RETURN_EVENTS):
                 continue
-            extra.append(gdesc(m, g))
-        cx.ob("C15.R4", "update:%s:refusal@%s" % ("/".join(sorted(arms)), _nth(f, b)), not extra,
-              "a refusal raised in the %s arm depends only on task states%s" % ("/".join(sorted(arms)), "" if not extra else " - but also on %s" % extra), f.loc(b))
-    cx.floor("C15.R4", 6)
+            extra = []
+            for gd in guards_of(m, g, b, mode="alias"):
+                if gd.neutral:
+                    continue
+                r = gd.root
+                if r[0] == "discr":
+                    continue
+                if r[0] == "call" and T.STATE_PRED.match(r[1]):
+                    continue
+                extra.append(gdesc(m, gd))
+            cx.ob("C15.R4", "update:%s:refusal@%s%s" % ("/".join(sorted(arms)), _nth(g, b), via), not extra,
+                  "a refusal raised in the %s arm%s depends only on task states%s" % ("/".join(sorted(arms)), (" (in `%s`)" % g.short) if g is not f else "", "" if not extra else " - but also on %s" % extra), g.loc(b))
+
+    scan(f, arm_of, "", 0)
+    cx.floor("C15.R4", 3)
+
+
+def T_summ(cx):
+    from vlib.ts import Summaries
+    return cx.shared("summaries", lambda: Summaries(cx.m))
 
 
 def _nth(f, b):
@@ -274,32 +294,65 @@ def r5_refusal(cx):
     if site is None:
         raise Anchor("return_to_act: the do_action call was not found")
     g, c = site
-    se = [x for x in g.calls() if x.q == T.Q_SET_ERR]
-    em = [x for x in g.calls() if x.q.endswith("Context::emit_error")]
-    ok_edge = ok_task = ok_open = ok_emit = False
-    if se and em:
-        x = se[0]
-        gs = guards_of(m, g, x.b, mode="alias")
-        for gd in gs:
+    # the failing of the act may sit in the closure itself or in a helper called on the Err edge (`scher.fail_calling_act(
+    # &action, err)`): follow local callees that reach set_err, translating their parameters back to the call site
+    def err_edge(gg, b):
+        for gd in guards_of(m, gg, b, mode="alias"):
             r = gd.root
             if r[0] == "discr" and r[1][:3] == ("call", c.q, c.b) and discr_variants(m, gd) == {"Err"}:
-                ok_edge = True
-            if r[0] == "call" and T.STATE_PRED.match(r[1]) and T.STATE_PRED.match(r[1]).group(1) == "is_completed" and gd.truth is False:
-                who = pa.root(g, Call(g, r[2]).args[0])
-                if who[0] == "call" and who[1] == T.Q_STATE and pa.root(g, Call(g, who[2]).args[0]) == pa.root(g, x.args[0]):
-                    ok_open = True
-        # the task is proc(action.pid).task(action.tid)
-        t = pa.root(g, x.args[0])
-        if t[0] == "call" and t[1].endswith("Process::task"):
-            tc = Call(g, t[2])
-            tid = pa.root(g, tc.args[1])
-            pr = pa.root(g, tc.args[0])
-            pid = pa.root(g, Call(g, pr[2]).args[1]) if pr[0] == "call" and pr[1].endswith("Cache::proc") else None
-            act = pa.root(g, c.args[1])
-            ok_task = pid is not None and tid[:3] == act[:3] and pid[:3] == act[:3] and tuple(y for y in tid[3] if y != "*")[-1:] == ("tid",) and tuple(y for y in pid[3] if y != "*")[-1:] == ("pid",)
-        # the error stored is the refusal, and the emit follows on the same context's task
-        ctxr = pa.root(g, em[0].args[0])
-        ok_emit = g.dominates(x.b, em[0].b) and ctxr[0] == "call" and ctxr[1].endswith("Task::create_context") and pa.root(g, Call(g, ctxr[2]).args[0]) == t
+                return True
+        return False
+
+    def lift(chain, r):
+        """translate a root of the innermost function of `chain` into a root of g: parameters become the arguments"""
+        for (caller, call) in reversed(chain):
+            if r[0] != "param":
+                return None
+            up = pa.root(caller, call.args[r[1] - 1])
+            r = pa._wrap(up, tuple(r[3]))
+        return r
+
+    ok_edge = ok_task = ok_open = ok_emit = False
+    work = [(g, [], None)]
+    seen_fns = set()
+    while work:
+        h, chain, edge_ok = work.pop()
+        if h.q in seen_fns:
+            continue
+        seen_fns.add(h.q)
+        se = [x for x in h.calls() if x.q == T.Q_SET_ERR]
+        em = [x for x in h.calls() if x.q.endswith("Context::emit_error")]
+        if se and em:
+            x = se[0]
+            ok_edge = edge_ok if chain else err_edge(h, x.b)
+            for gd in guards_of(m, h, x.b, mode="alias"):
+                r = gd.root
+                if r[0] == "call" and T.STATE_PRED.match(r[1]) and T.STATE_PRED.match(r[1]).group(1) == "is_completed" and gd.truth is False:
+                    who = pa.root(h, Call(h, r[2]).args[0])
+                    if who[0] == "call" and who[1] == T.Q_STATE and pa.root(h, Call(h, who[2]).args[0]) == pa.root(h, x.args[0]):
+                        ok_open = True
+            # the task is proc(action.pid).task(action.tid)
+            t = pa.root(h, x.args[0])
+            if t[0] == "call" and t[1].endswith("Process::task"):
+                tc = Call(h, t[2])
+                tid = pa.root(h, tc.args[1])
+                pr = pa.root(h, tc.args[0])
+                pid = pa.root(h, Call(h, pr[2]).args[1]) if pr[0] == "call" and pr[1].endswith("Cache::proc") else None
+                act = pa.root(g, c.args[1])
+                if chain:
+                    tid = lift(chain, tid) or tid
+                    pid = (lift(chain, pid) or pid) if pid is not None else None
+                ok_task = pid is not None and tid[:3] == act[:3] and pid[:3] == act[:3] and tuple(y for y in tid[3] if y != "*")[-1:] == ("tid",) and tuple(y for y in pid[3] if y != "*")[-1:] == ("pid",)
+            # the error stored is the refusal, and the emit follows on the same context's task
+            ctxr = pa.root(h, em[0].args[0])
+            ok_emit = h.dominates(x.b, em[0].b) and ctxr[0] == "call" and ctxr[1].endswith("Task::create_context") and pa.root(h, Call(h, ctxr[2]).args[0]) == t
+            break
+        if len(chain) < 2:
+            for y in h.calls():
+                if y.q in m.fns and y.q != h.q and y.q in T_summ(cx).may_write:
+                    e = edge_ok if chain else err_edge(h, y.b)
+                    if e:
+                        work.append((m.fns[y.q], chain + [(h, y)], e))
     cx.ob("C15.R5", "refusal:fails-the-act", ok_edge and ok_task and ok_open and ok_emit,
           "when do_action refuses the return, the calling act (action.pid / action.tid, not yet terminal) gets the refusal as its error and is emitted as failed%s" % (
               "" if (ok_edge and ok_task and ok_open and ok_emit) else " - not found (Err edge: %s, the act of the action: %s, still open: %s, set_err then emit_error on it: %s): a refused return leaves the calling act open for ever" % (ok_edge, ok_task, ok_open, ok_emit)), c.loc)
